@@ -117,6 +117,8 @@ pub struct Exec {
     names: HashMap<String, String>,
     /// per link name: (initial delivery count, deliveries started) of the EUT as sender
     eut_sender_dc: HashMap<String, (u32, u32)>,
+    /// delivery-tags the endpoint has used on each of its sending links, in order of first appearance
+    eut_tags: HashMap<String, Vec<Vec<u8>>>,
     peer_link_name: HashMap<(u16, u32), String>,
     gates: HashMap<String, std::sync::Arc<fe2o3_amqp::verif::Gate>>,
     /// call ids of send_batchable calls, in order
@@ -200,7 +202,7 @@ impl Exec {
         Exec { log: vec![], t0: tokio::time::Instant::now(), cpu_mark: crate::mon::thread_cpu_ns(), alloc_mark: crate::mon::alloc_mark(), side_listener: listener, peer: None, sasl: SaslSt::default(), txns: HashMap::new(), txn_ids: vec![], ctl_links: vec![], buf: vec![], eof_logged: false, sh: Shifts::default(), conn: None, sessions: HashMap::new(),
                senders: HashMap::new(), receivers: HashMap::new(), held: HashMap::new(), futs: HashMap::new(), calls: vec![], next_call: 1, roles: HashMap::new(),
                pending_begins: vec![], eut_channel: HashMap::new(), eut_dids: HashMap::new(), eut_frames: HashMap::new(), eut_noi: HashMap::new(),
-               out_progress: HashMap::new(), sent_queue: HashMap::new(), link_of_handle: HashMap::new(), pending_attach: vec![], msg_shapes: HashMap::new(), names: HashMap::new(), eut_sender_dc: HashMap::new(), peer_link_name: HashMap::new(), gates: HashMap::new(), batch_calls: vec![], calls_scope: HashMap::new(), link_sess: HashMap::new(), await_of: HashMap::new(), pv: PeerView::default() }
+               out_progress: HashMap::new(), sent_queue: HashMap::new(), link_of_handle: HashMap::new(), pending_attach: vec![], msg_shapes: HashMap::new(), names: HashMap::new(), eut_sender_dc: HashMap::new(), eut_tags: HashMap::new(), peer_link_name: HashMap::new(), gates: HashMap::new(), batch_calls: vec![], calls_scope: HashMap::new(), link_sess: HashMap::new(), await_of: HashMap::new(), pv: PeerView::default() }
     }
     fn t(&self) -> u64 { tokio::time::Instant::now().duration_since(self.t0).as_millis() as u64 }
     fn emit(&mut self, mut j: J) {
@@ -289,6 +291,7 @@ impl Exec {
             Performative::Transfer(t) => {
                 *self.eut_frames.entry(ch).or_insert(0) += 1;
                 if let Some(d) = t.delivery_id { let v = self.eut_dids.entry(ch).or_default(); if v.last() != Some(&d) { v.push(d); } }
+                if let Some(tag) = &t.delivery_tag { if let Some(n) = self.link_of_handle.get(&(ch, t.handle.0)) { let v = self.eut_tags.entry(n.clone()).or_default(); if !v.iter().any(|x| x[..] == tag[..]) { v.push(tag.to_vec()); } } }
                 if !self.out_progress.contains_key(&(ch, t.handle.0)) { if let Some(n) = self.link_of_handle.get(&(ch, t.handle.0)) { if let Some(e) = self.eut_sender_dc.get_mut(n) { e.1 += 1; } } }
             }
             _ => {}
@@ -480,6 +483,11 @@ impl Exec {
             match self.txn_bytes(&t) { Some(b) => f["state"]["txn"] = json!(b), None => return self.skip(e, "transaction not declared") }
         }
         let roles = self.roles.clone();
+        // an attach that carries an unsettled map: {"d": n} names the tag of the n-th delivery the endpoint started on the link of that name
+        if name == "attach" { if let Some(n) = f.get("name").and_then(|x| x.as_str()).map(|x| x.to_string()) { if let Some(a) = f.get_mut("uns").and_then(|u| u.as_array_mut()) {
+            for x in a.iter_mut() { if let Some(d) = x.get("tag").and_then(|t| t.get("d")).and_then(|d| d.as_u64()) {
+                let tag = self.eut_tags.get(&n).and_then(|v| v.get(d as usize)).cloned().unwrap_or_else(|| vec![0xee, d as u8]);
+                x["tag"] = json!(tag); } } } } }
         let p = perf_from(name, &f, &self.sh, |h| *roles.get(&(false, ch, h)).unwrap_or(&false));
         if let Performative::Attach(a) = &p {
             let peer_sender = a.role == fe2o3_amqp_types::definitions::Role::Sender;
